@@ -84,13 +84,100 @@ def f23():
         return {"python_repro": "A(a, x), B(x, y), C(y): Converter().get_structure_hook(Union[A, B, C]) vs Union[B, A, C]", "observed": out}
 
 
-REPLAYS = {"F4": f4, "F11": f11, "F3": f3, "F22": f22, "F23": f23}
+_F36_SRC = '''
+import dataclasses
+from typing import Dict, List, NotRequired, Self, TypedDict
+@dataclasses.dataclass
+class G1:
+    link: 'List[G0]'
+class G0(TypedDict):
+    link: Dict[str, G1]
+    me: NotRequired[List[Self]]
+class Tree(TypedDict):
+    children: List[Self]
+    n: int
+'''
+
+
+def f36():
+    """hook generation for a self-referential TypedDict must stop at the working-set guard, far from the interpreter's recursion
+    limit (near the limit the dispatcher's predicates fail and wrong hooks are chosen and cached)"""
+    import sys
+    import types
+    import cattrs.dispatch as D
+    from cattrs import Converter
+    mod = types.ModuleType("verif_corpus_f36")
+    sys.modules[mod.__name__] = mod
+    orig = D.FunctionDispatch.dispatch
+    depth = [0, 0]
+
+    def counting(self, typ):
+        f, n = sys._getframe(), 0
+        while f:
+            n += 1
+            f = f.f_back
+        depth[1] = max(depth[1], n)
+        return orig(self, typ)
+    try:
+        exec(compile(_F36_SRC, mod.__name__, "exec"), mod.__dict__)
+        f, n = sys._getframe(), 0
+        while f:
+            n += 1
+            f = f.f_back
+        depth[0] = n
+        D.FunctionDispatch.dispatch = counting
+        out = {}
+        for dv in (True, False):
+            c = Converter(detailed_validation=dv)
+            for T, u in ((mod.G1, {"link": [{"link": {"k0": {"link": []}}, "me": [{"link": {}, "me": []}]}]}),
+                         (mod.Tree, {"children": [{"children": [], "n": 1}], "n": 0})):
+                try:
+                    r = c.structure(u, T)
+                    ok = c.unstructure(r, T) == u
+                    out[f"{T.__name__}/dv={dv}"] = "ok" if ok else f"round trip differs: {r!r}"
+                except Exception as e:      # noqa
+                    out[f"{T.__name__}/dv={dv}"] = f"{type(e).__name__}: {e}"[:160]
+        used = depth[1] - depth[0]
+        if used > 300 or any(x != "ok" for x in out.values()):
+            return {"python_repro": "Converter(detailed_validation=True).structure({...}, G1)  # " + _F36_SRC.replace("\n", "; ")[:300],
+                    "observed": out, "stack_frames_used_by_hook_generation": used, "expected": "every call succeeds; generation stops at the working-set guard (a few dozen frames)"}
+    finally:
+        D.FunctionDispatch.dispatch = orig
+        sys.modules.pop(mod.__name__, None)
+
+
+def f34():
+    """reference cycle between attrs classes, subclass instances: the entry point of the first use must not matter"""
+    from typing import List
+    from cattrs import Converter
+    A = attrs.define(type("CA34", (), {"__annotations__": {"bs": "List[CB34]"}, "bs": attrs.field(factory=list)}))
+    B = attrs.define(type("CB34", (), {"__annotations__": {"as_": "List[CA34]"}, "as_": attrs.field(factory=list)}))
+    ns = {"CA34": A, "CB34": B, "List": List}
+    attrs.resolve_types(A, ns)
+    attrs.resolve_types(B, ns)
+    A2 = attrs.make_class("CA34b", {"more": attrs.field(type=int, default=7)}, bases=(A,))
+    B2 = attrs.make_class("CB34b", {"extra": attrs.field(type=int, default=5)}, bases=(B,))
+    val = A(bs=[B2(as_=[A2(bs=[B2()])])])
+    res = {}
+    for first in ("A", "B"):
+        c = Converter()
+        c.unstructure(A() if first == "A" else B())
+        res[first] = c.unstructure(val)
+    if res["A"] != res["B"]:
+        return {"python_repro": "A.bs: List[B], B.as_: List[A]; c.unstructure(A(bs=[B2(as_=[A2(bs=[B2()])])])) after c.unstructure(A()) vs after c.unstructure(B())",
+                "observed": {k: repr(x) for k, x in res.items()}, "expected": "the same result"}
+
+
+REPLAYS = {"F4": f4, "F11": f11, "F3": f3, "F22": f22, "F23": f23, "F34": f34, "F36": f36}
+REGRESSIONS = {"F34", "F36"}        # fixed findings whose minimal replay keeps running (a fixed entry suppresses nothing: a return is a violation)
 
 
 def run_corpus(v):
     from common import load_known_findings
     for f in load_known_findings():
-        if f.get("fixed") or v.prop not in f.get("properties", []) or f["id"] not in REPLAYS:
+        if v.prop not in f.get("properties", []) or f["id"] not in REPLAYS:
+            continue
+        if f.get("fixed") and f["id"] not in REGRESSIONS:
             continue
         rp = REPLAYS[f["id"]]()
         if rp is not None:
